@@ -605,7 +605,6 @@ Section Helpers.
   Proof.
     unfold become_leader. intros H. destruct (role_eqb (r_state r) Follower); [discriminate|].
     inv_bind H. apply reset_wf in Hx.
-    match type of H with (if ?c then _ else _) = _ => destruct c end; [discriminate|].
     match type of H with match ?d with _ => _ end = _ => destruct d end; [|discriminate].
     inv_bind H. destruct x0 as [r6 ok]. destruct ok; [|discriminate]. inversion H; subst; clear H.
     apply append_entry_cf in Hx0. apply cf_wf in Hx0.
@@ -676,6 +675,7 @@ Section Helpers.
     (tl = true \/ (MsgRequestPreVote =? ty) = false) -> hup r tl = Ok r' -> wf r r'.
   Proof.
     intros Htl H. unfold hup in H. destruct (is_leader r); [inversion H; apply wf_refl|].
+    destruct (negb (r_promotable r)); [inversion H; apply wf_refl|].
     apply bind_ok in H; destruct H as (low & _ & H).
     inv_bind H. destruct x; [inversion H; apply wf_refl|].
     destruct tl; [eapply campaign_real_wf; exact H|].
@@ -1688,7 +1688,6 @@ Lemma become_leader_clears r r' : become_leader r = Ok r' ->
 Proof.
   unfold become_leader. intros H. destruct (role_eqb (r_state r) Follower); [discriminate|].
   inv_bind H. apply reset_clears in Hx. destruct Hx as [A B].
-  match type of H with (if ?c then _ else _) = _ => destruct c end; [discriminate|].
   match type of H with match ?d with _ => _ end = _ => destruct d end; [|discriminate].
   inv_bind H. destruct x0 as [r6 ok]. destruct ok; [|discriminate]. inversion H; subst; clear H.
   apply append_entry_tn in Hx.
@@ -1831,6 +1830,7 @@ Theorem forced_vote_requests r r' :
 Proof.
   intros H. unfold hup in H.
   destruct (is_leader r); [inversion H; subst; exists []; rewrite app_nil_r; auto|].
+  destruct (negb (r_promotable r)); [inversion H; subst; exists []; rewrite app_nil_r; auto|].
   apply bind_ok in H; destruct H as (low & _ & H).
   inv_bind H. destruct x; [inversion H; subst; exists []; rewrite app_nil_r; auto|].
   unfold campaign_real in H. inv_bind H. inv_bind H. destruct x0 as [r2 res].
@@ -2616,7 +2616,6 @@ Lemma become_leader_vip r r' :
 Proof.
   unfold become_leader. intros H Hs. destruct (role_eqb (r_state r) Follower) eqn:Ef; [discriminate|].
   inv_bind H. apply reset_sv in Hx. destruct Hx as (A & B & C0). specialize (C0 eq_refl).
-  match type of H with (if ?c then _ else _) = _ => destruct c end; [discriminate|].
   match type of H with match ?d with _ => _ end = _ => destruct d end; [|discriminate].
   inv_bind H. destruct x0 as [r6 ok]. destruct ok; [|discriminate]. inversion H; subst; clear H.
   apply append_entry_tn in Hx.
@@ -2681,6 +2680,7 @@ Qed.
 Lemma hup_vip r tl r' : hup r tl = Ok r' -> vip r r'.
 Proof.
   intros H. unfold hup in H. destruct (is_leader r); [inversion H; apply vip_refl|].
+  destruct (negb (r_promotable r)); [inversion H; apply vip_refl|].
   apply bind_ok in H; destruct H as (low & _ & H).
   inv_bind H. destruct x; [inversion H; apply vip_refl|].
   destruct tl; [eapply campaign_real_vip; exact H|].
